@@ -306,7 +306,7 @@ EpochNext1 ==
   \/ TrFromTOW \/ TrToTOW \/ TrFromNs \/ TrToNs
 (* F1 through Epoch::floor / ceil / round (they act on the elapsed time with Duration's methods) *)
 Dev_F1E ==
-  /\ Open("F1") /\ KeepD /\ UNCHANGED sw /\ l <= Len(Rec) /\ IsEp(E.res)
+  /\ Open("F1") /\ KeepD /\ UNCHANGED sw /\ l <= Len(Rec) /\ E.op \in {"e_floor", "e_ceil", "e_round"} /\ IsEp(E.res)
   /\ \/ /\ IsOp("e_floor") /\ (M!F1Class(e.v) \/ M!F1Class(DV(E.s)))
           /\ e' = X!Ep(e.ts, M!F1Floor(e.v, DV(E.s))) /\ e'.v # M!Floor(e.v, DV(E.s))
       \/ /\ IsOp("e_ceil") /\ (M!F1Class(e.v) \/ M!F1Class(DV(E.s)) \/ M!F1Class(M!F1Floor(e.v, DV(E.s))))
